@@ -46,6 +46,28 @@ func TestC03Proc(t *testing.T) {
 			}
 		}
 	}
+	// the plugin dies between Start and the first Client() call; the host may have asked for blocking dials
+	// (GRPCDialOptions: grpc.WithBlock()): Client() still returns an error in bounded time and nothing else blocks behind it
+	for _, proto := range []string{"netrpc", "grpc"} {
+		for _, block := range []bool{false, true} {
+			if block && proto != "grpc" {
+				continue
+			}
+			cells = append(cells, Cell{
+				Name:   fmt.Sprintf("%s killed between Start and Client(), blocking dial=%v", proto, block),
+				Plugin: PluginConf{CookieKey: cookieKey, CookieValue: cookieVal, Legacy: 1, LegacyProto: proto, GRPCServer: true, TLS: "none"},
+				Host:   HostConf{Allowed: []string{"netrpc", "grpc"}, TLS: "none", Launch: "cmd", Legacy: 1, SkipHostEnv: true, GRPCBlock: block},
+				Ops:    []string{"new", "start", "sigkillplugin", "client", "exitedin:0", "kill:0"},
+			})
+			// the plugin dies after a blocking dial had succeeded: later calls fail, a second Client() is the cached one
+			cells = append(cells, Cell{
+				Name:   fmt.Sprintf("%s killed after connecting, blocking dial=%v", proto, block),
+				Plugin: PluginConf{CookieKey: cookieKey, CookieValue: cookieVal, Legacy: 1, LegacyProto: proto, GRPCServer: true, TLS: "none"},
+				Host:   HostConf{Allowed: []string{"netrpc", "grpc"}, TLS: "none", Launch: "cmd", Legacy: 1, SkipHostEnv: true, GRPCBlock: block},
+				Ops:    []string{"new", "start", "client", "dispense", "set:5", "sigkillplugin", "get:@0", "ping", "exitedin:0", "kill:0"},
+			})
+		}
+	}
 	results := runCells(base, cells)
 	out := &enumResult{Exhaustive: true, Outcomes: map[string]int{}}
 	for i, r := range results {
@@ -85,6 +107,12 @@ func TestC03Proc(t *testing.T) {
 					bad("T", "%s: Exited() turned true only %d ms after the plugin was killed (bound 4000 ms)", o.Op, o.Ms)
 				}
 				sum += "exited "
+			case name == "client":
+				// (net/rpc: the unix socket of a dead plugin refuses; gRPC without WithBlock connects lazily and may return a client)
+				if o.Ms > 8000 {
+					bad("T", "%s returned only after %d ms although the plugin process had been killed", o.Op, o.Ms)
+				}
+				sum += "client "
 			case name == "get" || name == "ping":
 				if o.Err == "" {
 					bad("S", "%s succeeded although the plugin process had been killed", o.Op)
